@@ -21,6 +21,7 @@ unique variables v0 v1 ..., with every slot filled by a plain operand, `#*`,
 `#**`, `:k v` or a long unpacking form.
 """
 import json
+import unicodedata
 
 SEQ = {"Expr": "Expression", "List": "List", "Tuple": "Tuple", "Set": "Set", "Dict": "Dict"}
 SEQ_ALL = ("Expr", "List", "Tuple", "Set", "Dict", "FStr", "FComp")
@@ -269,13 +270,30 @@ def pool_selfcheck():
     return bad
 
 
+def fullwidth(s):
+    """Compatibility spelling: ASCII letters, digits and _ as full-width forms, which NFKC
+    (hence mangling) maps back to the ASCII name."""
+    return "".join(chr(ord(c) + 0xFEE0) if (c.isascii() and (c.isalnum() or c == "_")) else c for c in s)
+
+
+# spellings that only *become* None/True/False/_/a keyword/a pool name through mangling
+COMPAT_SYMS = [fullwidth(x) for x in ("None", "True", "False", "_", "if", "class", "a", "x", "T", "self")] + \
+              ["\U0001d40d\U0001d428\U0001d427\U0001d41e", "\U0001d413\U0001d42b\U0001d42e\U0001d41e",
+               "\U0001d405\U0001d41a\U0001d425\U0001d42c\U0001d41e", "Tru\uff45", "N\uff4fne"]
+
+
 def gen_sym(rng, special=0.3):
-    if rng.random() < special:
+    r = rng.random()
+    if r < 0.08:
+        return S(rng.choice(COMPAT_SYMS))
+    if r < special:
         return S(rng.choice(SPECIAL_SYMS))
     return S(rng.choice(PLAIN_SYMS))
 
 
 def gen_kw(rng):
+    if rng.random() < 0.05:
+        return KW(fullwidth(rng.choice(["True", "None", "False", "k", "if"])))
     return KW(rng.choice(SPECIAL_KWS) if rng.random() < 0.6 else rng.choice(OTHER_KWS))
 
 
@@ -497,8 +515,14 @@ REQUIRE_OK_SYMS = {"hy", "core", "macros", "nomod", "nonexistent-mod", "sub", "N
                    "*", "when", "cond", "export", "c", "m", "w", "x", "a", "b", "mac1", "_"}
 
 
+def nk(s):
+    """Names are compared the way mangling sees them: NFKC-normalised (a full-width
+    `ｅｖａｌ-ｗｈｅｎ-ｃｏｍｐｉｌｅ` *is* eval-when-compile)."""
+    return unicodedata.normalize("NFKC", s)
+
+
 def _mangled(s):
-    return s.replace("-", "_")
+    return nk(s).replace("-", "_")
 
 
 _CT_HEADS_M = {_mangled(h) for h in CT_HEADS}
@@ -512,7 +536,7 @@ def _ct_clean(j, filler, nested_ct=True):
     themselves, because a macro parameter can carry an arbitrary outer form."""
     t = j["t"]
     if t == "Sym":
-        return j if j["v"] in CT_SAFE_SYMS else filler
+        return j if nk(j["v"]) in CT_SAFE_SYMS else filler
     if t == "Int":
         return j if abs(int(j["v"])) <= 16 else I(1)
     if not is_seq(j):
@@ -523,7 +547,7 @@ def _ct_clean(j, filler, nested_ct=True):
         hv = _mangled(h["v"])
         ok = hv in _CT_SAFE_HEADS_M and (nested_ct or hv not in _CT_HEADS_M)
         # else: a call of an unbound benign name (NameError at compile time)
-        ok = ok or (h["v"] in CT_SAFE_SYMS and h["v"] != "*")
+        ok = ok or (nk(h["v"]) in CT_SAFE_SYMS and nk(h["v"]) != "*")
         if not ok:
             return filler
         return dict(j, c=[h] + [_ct_clean(c, filler, nested_ct) for c in kids[1:]])
@@ -544,13 +568,13 @@ def sanitize(j):
     defined = set()
     for n, _ in walk(j):
         if _mangled(head_of(n) or "") == "defmacro" and len(n["c"]) > 1 and n["c"][1]["t"] == "Sym":
-            defined.add(n["c"][1]["v"])
+            defined.add(nk(n["c"][1]["v"]))
     allowed = set(PLAIN_SYMS) | set(SPECIAL_SYMS) | set(MACRO_NAME_SYMS) | REQUIRE_OK_SYMS | \
         {"&reader", "&key", "&compiler", "parse-one-form", "nomacro", "hy/core/macros", "R",
          "fname", "Cname", "attr"}
 
     def strip_defined(n):
-        if n["t"] == "Sym" and n["v"] in defined:
+        if n["t"] == "Sym" and nk(n["v"]) in defined:
             return filler
         return n
 
@@ -559,10 +583,11 @@ def sanitize(j):
 
     def top(n, is_head=False):
         if n["t"] == "Sym":
-            if n["v"] in defined and not is_head:
+            v = nk(n["v"])
+            if v in defined and not is_head:
                 return filler
-            known = n["v"] in allowed or n["v"] in _known_heads()
-            return n if known and n["v"] not in FORBIDDEN_NAMES - {"hy"} else S("a")
+            known = v in allowed or v in _known_heads()
+            return n if known and v not in FORBIDDEN_NAMES - {"hy"} else S("a")
         if not is_seq(n):
             return n
         kids = n["c"]
@@ -578,7 +603,7 @@ def sanitize(j):
         out = [top(c, is_head=(i == 0 and n["t"] == "Expr")) for i, c in enumerate(kids)]
         if hm == "require":
             def req(m):
-                if m["t"] == "Sym" and m["v"] not in REQUIRE_OK_SYMS:
+                if m["t"] == "Sym" and nk(m["v"]) not in REQUIRE_OK_SYMS:
                     return S("nomod")
                 return m
             out = [out[0]] + [map_ir(c, req) for c in out[1:]]
@@ -775,8 +800,34 @@ def retype(rng, node, depth=2):
     return KW("k")
 
 
+def respell(rng, ir):
+    """Replace one symbol or keyword, in whatever position it is (value, target, parameter,
+    attribute, keyword argument, capture, import name, macro head ...), by a compatibility
+    spelling of itself or of a constant."""
+    spots = [p for p in _leafpaths(ir) if _get(ir, p)["t"] in ("Sym", "Kw") and _get(ir, p)["v"]]
+    if not spots:
+        return ir
+    p = rng.choice(spots)
+    node = _get(ir, p)
+    if rng.random() < 0.55:
+        new = fullwidth(node["v"])
+    else:
+        new = rng.choice(COMPAT_SYMS[:3] + COMPAT_SYMS[-5:] + COMPAT_SYMS[3:6])
+    return _set(ir, p, dict(node, v=new))
+
+
+def _leafpaths(j, path=()):
+    if is_seq(j):
+        for i, c in enumerate(j["c"]):
+            yield from _leafpaths(c, path + (i,))
+    else:
+        yield path
+
+
 def mutate_once(rng, ir):
     """Delete / duplicate / swap / retype one argument somewhere in the tree."""
+    if rng.random() < 0.12:
+        return respell(rng, ir), "respell"
     paths = [p for p in _positions(ir) if _get(ir, p)["c"]]
     if not paths:
         return ir, "none"
@@ -900,10 +951,30 @@ class LeafGen:
         self.max_nest = max_nest
         self.unpacks = 0
         self.kinds = set()
+        self.wrap_p = rng.choice([0.0, 0.15, 0.3])
+        # tame forms keep every slot kind legal for its context, so most of them are accepted
+        # (and run); hostile forms put every kind in every slot
+        self.tame = rng.random() < 0.6
+        self.wrapped = 0
+        # run-time model for the control-flow forms (assert, try)
+        self.special = {}        # leaf name -> "falsy" | "exc:<k>" (value the recording namespace returns)
+        self.runtime = None      # leaf names that must be read at run time (None = all)
+        self.expect_exc = None   # exception type name that ends a *complete* run
 
-    def leaf(self):
+    def bare_leaf(self):
         s = S(f"v{self.n}")
         self.n += 1
+        return s
+
+    def leaf(self):
+        """A leaf variable, bare or inside the statement wrapper (do (setv tN vN) tN),
+        which forces the compiler to hoist a statement out of the slot."""
+        s = self.bare_leaf()
+        if self.rng.random() < self.wrap_p:
+            self.kinds.add("leaf:stmt-wrapped")
+            self.wrapped += 1
+            t = S("t" + s["v"][1:])
+            return E(S("do"), E(S("setv"), t, s), t)
         return s
 
     def kwname(self):
@@ -917,11 +988,18 @@ class LeafGen:
         kinds = {"obj": OBJ_FORMS, "hashable": HASHABLE_FORMS}.get(want, ANY_FORMS)
         return self.form(nest + 1, self.rng.choice(kinds))
 
-    def slot(self, nest, allow=None, want="any"):
-        """List of IR nodes filling one argument/element slot."""
+    TAME = {"call": {"plain", "kw", "star", "dstar", "long-star", "long-dstar"},
+            "elem": {"plain", "star", "long-star"}, "plain": {"plain"}}
+
+    def slot(self, nest, allow=None, want="any", ctx="elem"):
+        """List of IR nodes filling one argument/element slot. `ctx` says which kinds the
+        surrounding form can express: call arguments, collection elements / operator
+        operands (shadowed by hy.pyops under #*), or plain operands only."""
         rng = self.rng
         if allow is None:
-            allow = RARE_SLOT_KINDS if rng.random() < 0.03 else UNPACK_SLOT_KINDS
+            allow = RARE_SLOT_KINDS if (rng.random() < 0.03 and not self.tame) else UNPACK_SLOT_KINDS
+        if self.tame:
+            allow = [k for k in allow if k in self.TAME[ctx]] or ["plain"]
         kind = rng.choice(allow)
         self.kinds.add("slot:" + kind)
         if kind == "plain":
@@ -941,32 +1019,33 @@ class LeafGen:
             return [E(S("unpack-iterable"))]
         return [E(S("unpack-mapping"))]
 
-    def slots(self, nest, lo, hi, allow=None, want="any"):
+    def slots(self, nest, lo, hi, allow=None, want="any", ctx="elem"):
         out = []
         for _ in range(self.rng.randint(lo, hi)):
-            out.extend(self.slot(nest, allow, want))
+            out.extend(self.slot(nest, allow, want, ctx))
         return out
 
     def form(self, nest=0, kind=None):
         rng = self.rng
         if kind is None:
-            kind = rng.choice(ANY_FORMS + (["decorators", "bases"] if nest == 0 else []))
+            kind = rng.choice(ANY_FORMS + (["decorators", "bases", "assert", "assert", "try", "try"]
+                                           if nest == 0 else []))
         self.kinds.add("form:" + kind)
         objslot = ["plain", "plain", "plain", "star", "dstar"]
         if kind == "call":
-            return E(self.operand(nest, "obj"), *self.slots(nest, 0, 4))
+            return E(self.operand(nest, "obj"), *self.slots(nest, 0, 4, ctx="call"))
         if kind == "method":
             # (.m obj args...): the object may come after keyword/mapping slots
-            pre = self.slots(nest, 0, 1, ["kw", "dstar", "long-dstar"]) if rng.random() < 0.2 else []
-            return E(E(S("."), S("None"), S("m")), *pre, self.operand(nest, "obj"), *self.slots(nest, 0, 3))
+            pre = self.slots(nest, 0, 1, ["kw", "dstar", "long-dstar"], ctx="call") if rng.random() < 0.2 else []
+            return E(E(S("."), S("None"), S("m")), *pre, self.operand(nest, "obj"), *self.slots(nest, 0, 3, ctx="call"))
         if kind == "dot":
             parts = []
             for _ in range(rng.randint(1, 3)):
                 r = rng.random()
                 if r < 0.45:
-                    parts.append(E(S("m"), *self.slots(nest, 0, 3)))
+                    parts.append(E(S("m"), *self.slots(nest, 0, 3, ctx="call")))
                 elif r < 0.8:
-                    parts.append(L(*self.slot(nest, ["plain", "plain", "plain", "star", "dstar", "dstar-surplus"])))
+                    parts.append(L(*self.slot(nest, ["plain", "plain", "plain", "star", "dstar", "dstar-surplus"], ctx="plain")))
                 else:
                     parts.append(S("attr"))
             return E(S("."), self.operand(nest, "obj"), *parts)
@@ -985,13 +1064,14 @@ class LeafGen:
                     kids.append(E(S("unpack-mapping"), self.operand(nest, "obj")))
                 else:
                     # any slot kind, keeping the display even-length where possible
-                    s = self.slot(nest, want="hashable")
+                    s = self.slot(nest, want="hashable", ctx="plain")
                     kids += s if len(s) == 2 else s + [self.operand(nest)]
             return seq("Dict", kids)
         if kind == "get":
-            return E(S("get"), *self.slot(nest, objslot, "obj"), *self.slots(nest, 1, 3, want="hashable"))
+            return E(S("get"), *self.slot(nest, objslot, "obj", "plain"), *self.slots(nest, 1, 3, want="hashable"))
         if kind == "cut":
-            return E(S("cut"), *self.slot(nest, objslot, "obj"), *self.slots(nest, 0, 3, want="hashable"))
+            return E(S("cut"), *self.slot(nest, objslot, "obj", "plain"),
+                     *self.slots(nest, 0, 3, want="hashable", ctx="plain"))
         if kind == "op":
             op = rng.choice(["+", "-", "*", "/", "//", "%", "**", "<<", ">>", "|", "^", "&", "@", "bnot"])
             lo, hi = {"%": (2, 2), "^": (2, 2), "bnot": (1, 1)}.get(op, (1, 4))
@@ -1007,14 +1087,14 @@ class LeafGen:
                 return E(S(op), *first, *self.slot(nest, nokw, "obj"))
             return E(S(op), *self.slots(nest, 1 if (op in CMP1 and rng.random() < 0.3) else 2, 4, want="obj"))
         if kind == "chainc":
-            kids = list(self.slot(nest, objslot, "obj"))
+            kids = list(self.slot(nest, objslot, "obj", "plain"))
             n = rng.randint(1, 3)
             for i in range(n):
                 # only the last link may be one that yields a falsy result on stand-ins
                 ops = ["<", "<=", "=", "!=", "in", ">", ">="] + (["is", "is-not", "not-in"] if i == n - 1 else [])
                 kids.append(S(rng.choice(ops)))
                 kids.extend(self.slot(nest, ["plain", "plain", "plain", "star", "dstar", "long-dstar",
-                                             "dstar-surplus"], "obj"))
+                                             "dstar-surplus"], "obj", "plain"))
             return E(S("chainc"), *kids)
         if kind == "fstring":
             kids = []
@@ -1023,28 +1103,84 @@ class LeafGen:
                 r = rng.random()
                 if r < 0.3:
                     kids.append(STR("s"))
-                elif r < 0.9:
+                elif r < 0.9 or self.tame:
                     conv = rng.choice([None, None, "r", "s", "a"])
-                    val = self.slot(nest, fval)
+                    val = self.slot(nest, fval, ctx="plain")
                     spec = []
                     # after a conversion the spec applies to a str: keep it a single valid piece
                     for _ in range(rng.choice([0, 1]) if conv else rng.choice([0, 1, 1, 2])):
                         q = rng.random()
                         if q < 0.35:
                             spec.append(STR(">4"))
-                        elif q < 0.85:
-                            spec.append(seq("FComp", self.slot(nest, fval), conv=rng.choice([None, "r"])))
+                        elif q < 0.85 or self.tame:
+                            spec.append(seq("FComp", self.slot(nest, fval, ctx="plain"), conv=rng.choice([None, "r"])))
                         else:
                             spec.extend(self.slot(nest, ["dstar", "star", "dstar-surplus"]))
                     kids.append(seq("FComp", val + spec, conv=conv))
                 else:
                     kids.extend(self.slot(nest, ["dstar", "star", "dstar-surplus"]))
             return seq("FStr", kids)
+        if kind == "assert":
+            # (assert TEST [MSG]): MSG is evaluated only if TEST is falsy -> the test leaf's
+            # stand-in is falsy in half of the forms, and the run then ends in AssertionError
+            if rng.random() < 0.75:
+                test = self.leaf()
+                tname = leaves_of(test)[0]
+                falsy = rng.random() < 0.5
+            else:
+                test, falsy = self.form(nest + 1, rng.choice(OBJ_FORMS)), False
+            kids = [S("assert"), test]
+            if rng.random() < 0.8:
+                kids.append(self.operand(nest))
+            if falsy:
+                self.special[tname] = "falsy"
+                self.expect_exc = "AssertionError"
+                self.kinds.add("assert:test-falsy")
+            else:
+                self.runtime = leaves_of(test)
+                self.kinds.add("assert:test-truthy")
+            return E(*kids)
+        if kind == "try":
+            # (try ... (raise vB) (except [T..] H)*2..3 [(else ..)] [(finally ..)]): the body raises
+            # exception class 0; clause k is the first whose type matches, so the type forms of
+            # clauses 0..k and handler k are evaluated
+            n = rng.randint(2, 3)
+            k = rng.randrange(n)
+            pre = [self.operand(nest)] if rng.random() < 0.4 else []
+            raised = self.bare_leaf()
+            self.special[raised["v"]] = "exc:0"
+            body = pre + [E(S("raise"), raised)]
+            run = [x for b in body for x in leaves_of(b)]
+            clauses = []
+            for i in range(n):
+                variant = rng.choice(["single", "single", "named", "list", "named-list"])
+                types = [self.leaf() for _ in range(2 if "list" in variant else 1)]
+                names = [leaves_of(t)[0] for t in types]
+                hit = rng.randrange(len(types))
+                for j, nm in enumerate(names):
+                    self.special[nm] = "exc:0" if (i == k and j == hit) else f"exc:{i * 2 + j + 1}"
+                spec = L(*types) if "list" in variant else types[0]
+                handler = self.operand(nest)
+                clauses.append(E(S("except"), L(S("e"), spec) if "named" in variant else L(spec), handler))
+                self.kinds.add("try:except-" + variant)
+                if i <= k:
+                    run += names
+                if i == k:
+                    run += leaves_of(handler)
+            tail = []
+            if rng.random() < 0.3:
+                tail.append(E(S("else"), self.operand(nest)))
+            if rng.random() < 0.4:
+                fin = self.operand(nest)
+                run += leaves_of(fin)
+                tail.append(E(S("finally"), fin))
+            self.runtime = run
+            return E(S("try"), *body, *clauses, *tail)
         if kind == "decorators":
-            return E(S("defn"), L(*self.slots(nest, 1, 3, want="obj")), S("fname"), L(), I(1))
+            return E(S("defn"), L(*self.slots(nest, 1, 3, want="obj", ctx="plain")), S("fname"), L(), I(1))
         if kind == "bases":
-            return E(S("defclass"), L(*self.slots(nest, 0, 2, ["plain", "star", "dstar", "dstar-surplus"], "obj")),
-                     S("Cname"), L(*self.slots(nest, 0, 3, want="obj")))
+            return E(S("defclass"), L(*self.slots(nest, 0, 2, ["plain", "star", "dstar", "dstar-surplus"], "obj", "plain")),
+                     S("Cname"), L(*self.slots(nest, 0, 3, want="obj", ctx="call")))
         raise ValueError(kind)
 
 
